@@ -1208,6 +1208,11 @@ class Scenario(TagAndStatusStatement, Replayable):
                     if not found_step_match:
                         step.status = Status.undefined
                         runner.undefined_steps.append(step)
+                        if dry_run_scenario:
+                            # -- EMULATE: Step.run() protocol for undefined step.
+                            for formatter in runner.formatters:
+                                formatter.match(NoMatch())
+                                formatter.result(step)
                     elif dry_run_scenario:
                         # -- BETTER DIAGNOSTICS: Provide step file location
                         # (when --format=pretty is used).
